@@ -259,30 +259,33 @@ COLOR_BURN, SOFT_LIGHT and the four HSL modes -/
 def sensitiveOp (op' : Nat) : Bool :=
   op' == 0x35 || op' == 0x36 || op' == 0x38 || (0x3b ≤ op' && op' ≤ 0x3e)
 
-/-- every operand channel in [0, 1] and no colour above 4 × its alpha (as the combiner sees them) -/
-def operandsMild (op' : Nat) (ca : Bool) (s : Px) (m : Option Px) (d : Px) : Bool :=
-  let col (a c : Rat) : Bool := unit a && unit c && c ≤ 4 * a
-  let dOk := col d.a d.r && col d.a d.g && col d.a d.b
-  let sOk :=
+/-- `set_sat` divides by `Cmax − Cmin` of the colour whose hue is kept (HSL_HUE: the source as the
+combiner sees it; HSL_SATURATION: the destination).  A colour that is almost but not exactly grey
+(0 < Cmax − Cmin < Cmax·2⁻¹⁰) makes the binary32 result arbitrary (the hue of a near-grey): such
+requests are not judged.  Exactly grey colours ARE judged (`set_sat` must return black). -/
+def nearGreyHue (op' : Nat) (ca : Bool) (s : Px) (m : Option Px) (d : Px) : Bool :=
+  let near (c : Rgb) : Bool :=
+    let t := getSat c
+    0 < t && t * 1024 < absQ (channelMax c) + absQ (channelMin c)
+  if ca && m.isSome then false
+  else if op' == 0x3b then
     match m with
-    | Option.none => col s.a s.r && col s.a s.g && col s.a s.b
-    | some mm =>
-      if (hslBlend op').isSome && !ca then
-        col (s.a * mm.a) (s.r * mm.a) && col (s.a * mm.a) (s.g * mm.a * mm.a) && col (s.a * mm.a) s.b
-      else if ca then
-        col (s.a * mm.r) (s.r * mm.r) && col (s.a * mm.g) (s.g * mm.g) && col (s.a * mm.b) (s.b * mm.b)
-      else col (s.a * mm.a) (s.r * mm.a) && col (s.a * mm.a) (s.g * mm.a) && col (s.a * mm.a) (s.b * mm.a)
-  dOk && sOk
+    | Option.none => near ⟨s.r, s.g, s.b⟩
+    | some mm => near ⟨s.r * mm.a, s.g * mm.a * mm.a, s.b⟩
+  else if op' == 0x3c then near ⟨d.r, d.g, d.b⟩
+  else false
 
-/-- The additional allowance of the acceptance test, or `none` = the request is not judged:
-* 0 when the operands are premultiplied colours in [0, 1] (what the property speaks about) and for
-  every operator that is not `sensitiveOp` whatever the operands;
-* 2⁻⁸ for a sensitive operator on mildly super-luminescent operands;
-* not judged for a sensitive operator on wildly super-luminescent operands (the library's
-  binary32 result there is dominated by cancellation; counted as `skip` by the check). -/
+/-- Is the request judged, and with which additional allowance (always 0 now; kept as a value so
+that the acceptance functions state it)?  `none` = not judged (verdict `skip`, counted):
+* `nearGreyHue`;
+* a `sensitiveOp` on operands that are not premultiplied colours in [0, 1] as the combiner sees
+  them: the library's binary32 result is dominated by cancellation there (observed: HSL_COLOR on a
+  destination three times brighter than its alpha off by 7 %), and the property speaks of
+  premultiplied inputs.
+Every other operator is judged on all operands, super-luminescent ones included. -/
 def allowance (op' : Nat) (ca : Bool) (s : Px) (m : Option Px) (d : Px) : Option Rat :=
-  if !sensitiveOp op' || operandsPremultiplied op' ca s m d then some 0
-  else if operandsMild op' ca s m d then some (mkRat 1 256)
+  if nearGreyHue op' ca s m d then Option.none
+  else if !sensitiveOp op' || operandsPremultiplied op' ca s m d then some 0
   else Option.none
 
 /-- acceptance of the library's destination pixel `lib` against an evaluator (model or Spec) -/
